@@ -98,8 +98,10 @@ def correspond(ctx, scale):
         big = ci % 6 == 5
         if big:
             K = rng.choice([1, 2])
+        if ci % 7 == 6:
+            heads, sep, K = 2, True, 8          # separate codebooks per head with MORE codes than the first batch has tokens (set below)
         if ci % 5 == 2 and (ci // 5) % 3 == 0:
-            K, cosine = rng.choice([1, 1, 2, 3]), False          # sign-symmetric first batch (below): few codes, so that a cluster's members cancel exactly
+            K, cosine = [1, 2, 1, 3][(ci // 15) % 4], False          # sign-symmetric first batch (below): few codes, so that a cluster's members cancel exactly
         iters = rng.choice([1, 2, 5, 10, 20])
         kw = dict(dim=d * heads, codebook_dim=d, heads=heads, separate_codebook_per_head=sep, codebook_size=K, kmeans_init=True, kmeans_iters=iters,
                   use_cosine_sim=cosine, decay=0.5, threshold_ema_dead_code=(2 if ci % 4 == 1 else 0))     # with expiry configured the initialising PURE call must still only initialise
@@ -114,6 +116,8 @@ def correspond(ctx, scale):
             return out
         cb.sample_fn = sample_wrap
         b, nn_ = rng.choice([(1, 2), (2, 3), (2, 6), (3, 5)])
+        if ci % 7 == 6:
+            b, nn_ = 1, 2 + (ci // 7) % 2
         if big:
             b, nn_ = 4, 80 * K + rng.choice([1, 17])       # many more tokens than codes (hundreds per code)
             dist['big_first_batch'] += 1
@@ -138,7 +142,7 @@ def correspond(ctx, scale):
             kwargs['mask'] = m
             x = torch.where(m[..., None], x, torch.full_like(x, 1e6 if rng.random() < 0.5 else -3e4))   # adversarial padding
         first_mode = rng.choice(['eval', 'train', 'frozen'])
-        if big:
+        if big or ci % 7 == 6 or (ci % 5 == 2 and nn_ >= 2):
             first_mode = ['eval', 'frozen'][(ci // 6) % 2]       # the initialisation invariants are read off a pure first call: big batches always get one
         vq.train(first_mode != 'eval')
         if first_mode == 'frozen':
